@@ -8,7 +8,7 @@
     point and are compared with vmc/oracles/c14_oracle.py (mpmath matrices written from the definitions).
 (E) sections `faults`, `sequences`: the environment (= what the directory contains at each load) is enumerated
     completely: every subset of missing files, oversized targets, one ill-sized / ill-based / dataset-less file
-    at every position, each on a fresh solver and after a successful first load; all load sequences of length <= 3
+    at every position, each on a fresh solver and after a successful first load; all load sequences of length <= 3 (thorough: 4)
     over the alphabet {good-1, good-2, missing, oversize, size-mismatch, basis-mismatch, no-dataset} against a
     three-state reference model (nothing / content-1 / content-2 installed).
 """
@@ -31,7 +31,7 @@ RULE = (
     "x stored N x target N (odd <= stored) x stored basis x requested basis x grid class; basis: every sequence of <=3 "
     "changeBasis calls from each start basis; faults: all 2^(n^2) missing-file subsets for n<=3 (x target size), every "
     "(stored,target) oversize pair, one deviating file at every position for size/basis/dataset faults, each on a fresh "
-    "solver and after a successful load; sequences: all 7+49+343 load sequences (5-symbol alphabet for n=1) per (n, mode). "
+    "solver and after a successful load; sequences: all load sequences of length <= 3 (quick; 7+49+343 per (n, mode), 5-symbol alphabet for n=1) / <= 4 (thorough). "
     "A case is non-trivial when the operation it targets actually ran (load succeeded / interpolation branch taken / "
     "exception raised); distinct = distinct case id."
 )
@@ -518,7 +518,7 @@ def case_sequences(p: dict) -> dict:
             fresh[g] = None if e0 is not None else digest(s0.collisionArray)
         r.true("reference-loads-succeed", all(v is not None for v in fresh.values()))
         r.true("reference-contents-differ", fresh["G1"] != fresh["G2"])
-        for L in (1, 2, 3):
+        for L in range(1, int(p.get("depth", 3)) + 1):
             for tail in itertools.product(alphabet, repeat=L - 1):
                 seq = (first,) + tail
                 sname = ".".join(seq)
@@ -562,7 +562,7 @@ def sequence_cases(tier: str) -> list[dict]:
             for first in SYMBOLS:
                 if n == 1 and first in ("S", "B"):
                     continue
-                out.append({"id": f"n={n},mode={mode},first={first}", "n": n, "mode": mode, "first": first})
+                out.append({"id": f"n={n},mode={mode},first={first}", "n": n, "mode": mode, "first": first, "depth": 4 if tier == "thorough" else 3})
     return out
 
 
@@ -626,7 +626,7 @@ def run(ctx) -> None:
              "of length <=3 over the 7-symbol alphabet; basis change / interpolation are linear maps applied slice-wise: the slices of "
              "the distinct-integer tensor span the whole input space (ranks in input_vectors_span_space), so each map is fixed on a "
              "complete basis for the listed sizes and particle lists; not exhaustive over N or over the reals")
-    ctx.note("bounds", {"particles": "1..3 (15 ordered lists)", "stored_N": "5,7,9 (thorough +11,13)", "load_sequence_depth": 3})
+    ctx.note("bounds", {"particles": "1..3 (15 ordered lists)", "stored_N": "5,7,9 (thorough +11,13)", "load_sequence_depth": 4 if ctx.tier == "thorough" else 3})
 
 
 def replay(rep: dict) -> dict:
